@@ -397,6 +397,112 @@ fn main() {
                 writeln!(f, "{}", line).unwrap();
             }
         }
+        "repeat-lib" => {
+            // C05: the same library calls repeated within one process, with other evaluations in
+            // between: run_checks (verbose and not), parse-tree, rulegen.  One line per job with the
+            // digests of what each repetition returned.
+            let seed: u64 = m.get("seed").and_then(|s| s.parse().ok()).unwrap_or(1);
+            let n: usize = m.get("n").and_then(|s| s.parse().ok()).unwrap_or(50);
+            let rounds: usize = m.get("rounds").and_then(|s| s.parse().ok()).unwrap_or(5);
+            let cfg = cfg_of(m.get("cfg").map(|s| s.as_str()).unwrap_or("full"));
+            let out = m.get("out").expect("--out");
+            let scratch = m.get("scratch").expect("--scratch");
+            let mut r = Rng::new(seed);
+            let mut jobs: Vec<(String, String, String)> = Vec::new();
+            for k in 0..n {
+                let mut rr = r.fork();
+                let (rules, data) = {
+                    let mut g = gen::Gen { r: &mut rr, cfg: cfg.clone() };
+                    let doc = g.doc();
+                    let prog = g.program(&doc);
+                    (render::render_file(&prog), val::to_json_text(&doc))
+                };
+                let template = {
+                    let mut g = gv::rulegen::TGen { r: &mut rr, hard: k % 2 == 1 };
+                    val::to_json_text(&g.template(k % 3 != 0))
+                };
+                jobs.push((rules, data, template));
+            }
+            let kinds = ["run_checks", "run_checks-verbose", "parse-tree", "rulegen"];
+            let mut res: Vec<Vec<Vec<J>>> = vec![vec![Vec::new(); kinds.len()]; n];
+            let text_of = |x: Result<Result<String, String>, String>| match x {
+                Ok(Ok(s)) => format!("ok:{}", s),
+                Ok(Err(e)) => format!("err:{}", e),
+                Err(p) => format!("panic:{}", p),
+            };
+            for _ in 0..rounds {
+                for (j, (rules, data, template)) in jobs.iter().enumerate() {
+                    let outs = [
+                        text_of(exec::run_checks_raw(rules, data, false)),
+                        text_of(exec::run_checks_raw(rules, data, true)),
+                        exec::parse_tree_text(rules),
+                        gv::rulegen::run_rulegen(template, scratch).to_string(),
+                    ];
+                    for (k, o) in outs.iter().enumerate() {
+                        let mut ls: Vec<&str> = o.lines().collect();
+                        ls.sort();
+                        res[j][k].push(json!({"exit": 0, "out": gv::xform::digest(o), "lines": gv::xform::digest(&ls.join("\n")),
+                                              "err": "", "elines": ""}));
+                    }
+                }
+            }
+            let mut f = std::io::BufWriter::new(std::fs::File::create(out).unwrap());
+            let mut i = 0usize;
+            for j in 0..n {
+                for (k, kind) in kinds.iter().enumerate() {
+                    i += 1;
+                    let class = if *kind == "rulegen" { "rulegen" } else { "bytes" };
+                    let line = json!({"i": i, "cmd": "lib", "mode": kind, "class": class, "where": "in-process", "job": j,
+                                      "runs": res[j][k]});
+                    writeln!(f, "{}", line).unwrap();
+                }
+            }
+        }
+        "fuzz-case" => {
+            let seed: u64 = m.get("seed").and_then(|s| s.parse().ok()).unwrap_or(1);
+            let i: usize = m.get("i").and_then(|s| s.parse().ok()).unwrap_or(0);
+            let c = gv::fuzz::case(seed, i);
+            println!("{}", json!({"i": i, "kind": c.kind, "rules": c.rules, "data": c.data, "template": c.template}));
+        }
+        "fuzz-worker" => {
+            // C08: cases [from, to) of the (seed, index) case function through the library entry
+            // points.  A `start` marker is flushed before each case: when the process dies (stack
+            // overflow, abort) the parent knows which case it was.
+            let seed: u64 = m.get("seed").and_then(|s| s.parse().ok()).unwrap_or(1);
+            let from: usize = m.get("from").and_then(|s| s.parse().ok()).unwrap_or(0);
+            let to: usize = m.get("to").and_then(|s| s.parse().ok()).unwrap_or(100);
+            let out = m.get("out").expect("--out");
+            let mut f = std::fs::OpenOptions::new().create(true).append(true).open(out).unwrap();
+            let brief = |x: Result<Result<String, String>, String>| match x {
+                Ok(Ok(_)) => json!({"kind": "ok"}),
+                Ok(Err(e)) => json!({"kind": "err", "msg": e.chars().take(300).collect::<String>()}),
+                Err(p) => json!({"kind": "panic", "msg": p.chars().take(300).collect::<String>()}),
+            };
+            for i in from..to {
+                writeln!(f, "{}", json!({"start": i})).unwrap();
+                f.flush().unwrap();
+                let c = gv::fuzz::case(seed, i);
+                let pt = exec::parse_tree_text(&c.rules);
+                let accepted = !(pt.starts_with("err:") || pt.starts_with("panic:"));
+                cfn_guard::verif_hooks::enable(true);
+                let _ = cfn_guard::verif_hooks::drain();
+                let lib = brief(exec::run_checks_raw(&c.rules, &c.data, false));
+                let evs = cfn_guard::verif_hooks::drain();
+                cfn_guard::verif_hooks::enable(false);
+                let libv = brief(exec::run_checks_raw(&c.rules, &c.data, true));
+                let evaluated = evs.iter().filter(|e| e.contains("\"rule_eval_begin\"")).count();
+                let ptj = if pt.starts_with("panic:") {
+                    json!({"kind": "panic", "msg": pt.chars().take(300).collect::<String>()})
+                } else if pt.starts_with("err:") {
+                    json!({"kind": "err", "msg": pt.chars().take(400).collect::<String>()})
+                } else {
+                    json!({"kind": "ok"})
+                };
+                let line = json!({"i": i, "kind": c.kind, "accepted": accepted, "pt": ptj, "lib": lib, "libv": libv, "evaluated": evaluated});
+                writeln!(f, "{}", line).unwrap();
+                f.flush().unwrap();
+            }
+        }
         "record-events" => {
             // hook-event stream of many evaluations, flattened (TraceMemo)
             let seed: u64 = m.get("seed").and_then(|s| s.parse().ok()).unwrap_or(1);
